@@ -188,6 +188,9 @@ func (c *Ctx) Violation(v Violation) {
 	}
 }
 
+// ViolationKeys returns the violation keys recorded so far by this worker.
+func (c *Ctx) ViolationKeys() map[string]int64 { return c.res.VioCount }
+
 // JSON marshals any value into a RawMessage.
 func JSON(v interface{}) json.RawMessage {
 	b, err := json.Marshal(v)
